@@ -120,6 +120,16 @@ PoolWithinLimit == SumSize(pool) <= MaxPool
 \* cleanup or not, unless a failed reorganisation left the chain mid-way
 PoolNoChainDoubleSpend == clean => \A u \in pool : InSet(u) \subseteq UtxoOf(main)
 
+\* C23 (mempool checkpoint): saving the pool and loading it into a restarted pool on the
+\* same chain -- every saved transaction is offered again, in any order -- gives the
+\* same pool.  (The replay driver performs that round trip on the real pool after
+\* every step: Snapshot -> Serialize -> fresh TxPool.Deserialize.)
+RECURSIVE Reoffer(_, _)
+Reoffer(todo, P) == IF todo = {} THEN P
+                    ELSE LET t == CHOOSE x \in todo : TRUE IN
+                         Reoffer(todo \ {t}, IF SubmitResult(t, P, main) = "ok" THEN P \cup {t} ELSE P)
+RestoreIsIdentity == clean => Reoffer(pool, {}) = pool
+
 MEmit == PrintT(<<"TRACE", ToJson(log')>>)
 MEmitLast == (ndeliv' + nsub' = MaxDeliver + MaxSubmit) => PrintT(<<"TRACE", ToJson(log')>>)
 =============================================================================
